@@ -12,7 +12,7 @@ RECURSIVE JoinS(_)
 JoinS(q) == IF q = <<>> THEN "" ELSE Head(q) \o JoinS(Tail(q))
 
 \* sanitizeLabelName: every character outside [a-zA-Z0-9_] becomes "_"
-San(c) == IF c \in {"a", "b", "_"} THEN c ELSE "_"
+San(c) == IF c \in {"a", "b", "A", "1", "_"} THEN c ELSE "_"
 SanKey(k) == JoinS([i \in DOMAIN k |-> San(k[i])])
 ValOf(k)  == "val(" \o JoinS(k) \o ")"
 
